@@ -92,7 +92,7 @@ def run_sets(ctx, jinja2, sets):
         lines.append(G.model_line(ts, "r"))
         metas.append((ts, srcs, "r", None))
         for n in ts["templates"]:
-            if n == ts["main"] and (ts.get("objects") or ts.get("lists")):
+            if n == ts["main"] and (ts.get("objects") or ts.get("lists") or ts.get("names")):
                 continue        # Template objects travel in the render data, which .module does not get
             lines.append(G.model_line(ts, "m", main=n))
             metas.append((ts, srcs, "m", n))
@@ -108,12 +108,12 @@ def run_sets(ctx, jinja2, sets):
         if mode == "r":
             for kd in seen:
                 ctx.count(kd)
-            real = G.real_render(jinja2, ts, env=G.make_env(jinja2, ts, srcs, kind=kind), history=(idx % 3 == 1))
+            real = G.real_render(jinja2, ts, env=G.make_env(jinja2, ts, srcs, kind=kind), history=(idx % 3 == 1) or (idx % 2 == 0 and any(t["globals"] for t in ts["templates"].values())))
             ctx.count("env:" + kind)
         else:
             real = G.real_module(jinja2, ts, n, env=G.make_env(jinja2, ts, srcs, kind=kind))
         case = {"sources": srcs, "main": ts["main"] if mode == "r" else n, "mode": mode, "data": ts["data"],
-                "env_globals": ts["env_globals"], "objects": ts.get("objects", []), "lists": ts.get("lists", {}),
+                "env_globals": ts["env_globals"], "objects": ts.get("objects", []), "lists": ts.get("lists", {}), "names": ts.get("names", []),
                 "template_globals": {k: t["globals"] for k, t in ts["templates"].items()}, "model_line": line}
         nontriv = ({"include", "import", "from-import"} & seen) and real.startswith("O ") and len(real) > 8
         judge(ctx, case, ml, real, bool(nontriv), line)
@@ -152,6 +152,19 @@ def run(ctx):
     # translator tie: the current source of runtime.new_context and Template._get_default_module, as terms of
     # Lib/PyImp, equals the reference results that Lib/PyImp proves equal to Model/Imp's functions
     translator_tie(ctx, "imp_translate", "Gen_imp", 2)
+    # ... and of Environment.get_or_select_template's dispatch on the kind of its argument (exact str, str subclass,
+    # Markup, Undefined, Template, list, tuple): decision list = model, checked for every kind
+    import importlib
+    import os as _os
+    import sys as _sys
+    _sys.path.insert(0, _os.path.join(lib.ROOT, "gen"))
+    _tr = importlib.import_module("imp_translate")
+    try:
+        ok, out = ctx.coq_obligation("Gen_imp_dispatch", _tr.emit_dispatch(lib.SRC), n_obligations=1)
+        if ok:
+            ctx.trusted.append("Gen_imp_dispatch: " + " ".join(out.split()))
+    except _tr.Untranslatable as e:
+        ctx.broken.append(f"translator gen/imp_translate.py (dispatch): the source left the translatable vocabulary: {e}")
     g = G.IGen(ctx.rng)
     n = ctx.size(420, 8000)
     B = 2000
@@ -175,7 +188,8 @@ def replay(ctx, data):
         return run(ctx)
     ts = {"templates": {n: {"globals": case["template_globals"].get(n, {}), "body": []} for n in case["sources"]},
           "main": case["main"], "data": case["data"], "env_globals": case["env_globals"], "objects": case["objects"],
-          "lists": {k: [tuple(t) for t in v] for k, v in case.get("lists", {}).items()}}
+          "lists": {k: [tuple(t) for t in v] for k, v in case.get("lists", {}).items()},
+          "names": [tuple(x) for x in case.get("names", [])]}
     env = G.make_env(jinja2, ts, case["sources"])
     real = G.real_render(jinja2, ts, env=env) if case["mode"] == "r" else G.real_module(jinja2, ts, case["main"], env=env)
     p = parse(ctx.driver("imp", [case["model_line"]])[0])
